@@ -18,7 +18,7 @@ def rel(path):
 
 
 class Program(object):
-    def __init__(self, config='main', use_cache=True):
+    def __init__(self, config='main', use_cache=True, normalize=True):
         data = frontend.load_units(config, use_cache=use_cache)
         self.config = config
         self.units = data['units']
@@ -52,6 +52,12 @@ class Program(object):
         self._fp_targets = None
         self._callgraph = None
         self._callers = None
+        self.renamed = {}
+        self.inlined_helpers = []
+        if normalize:
+            from . import normalize as nz
+            self.renamed = nz.resolve_renames(self)
+            self.inlined_helpers = nz.inline_pure_helpers(self)
 
     # ---------------------------------------------------------- macros
     def macro(self, name, header='src/lib/zck_private.h'):
